@@ -273,14 +273,9 @@ def same_behaviour(W, a, b, label):
     W.require(na == nb, label, 'different shape of results')
     if na != nb:
         return
+    from .sampler_steps import require_same
     for (n, x), (_, y) in zip(a, b):
-        if isinstance(x, tuple) or isinstance(y, tuple):
-            good = x == y
-        elif W.symbolic:
-            good = ident(W, x, y)
-        else:
-            good = W.same(x, y)
-        W.require(bool(good), label, n)
+        require_same(W, x, y, label, n)
 
 
 def limit_rounds(W, rng, unroll):
